@@ -32,7 +32,7 @@ func init() { core.Register(check{}) }
 func (check) ID() string    { return "C08" }
 func (check) Level() string { return "exploration" }
 func (check) Rule() string {
-	return "bounded-exhaustive enumeration, simplest first, of (schema, message, options): value families = every boundary value of every scalar kind and enum as singular field, list element (4 list layouts, packed and [packed=false]), map value, and every boundary key of every map key kind; structure families = 6 embedding contexts (top, between siblings, nested 1 and 2 levels, element of a repeated message, value of a map of messages) x FUT numbers (incl. the number that equals the next tag of the parent) x every shape (singular/repeated/unpacked x 17 kinds, map key kinds x value kinds) x sizes 0..3 / empty sub-messages; all 64 presence subsets of a 6-field message; JSON-name spellings; recursive chains; unknown fields of every wire type at every position and depth; x all 4 subsets of {Int642String, DisallowUnknownField} x {Do, DoInto with capacities 0,1,len/2,len}. A case is non-trivial if it is distinct by (schema, message, options) and the converter produced output that was parsed and compared. Later additions: histories of length 2, SetOptions twin, arena-backed DoInto, overwriting of the pooled buffers right after Do, two message types with one simple name."
+	return "bounded-exhaustive enumeration, simplest first, of (schema, message, options): value families = every boundary value of every scalar kind and enum as singular field, list element (4 list layouts, packed and [packed=false]), map value, and every boundary key of every map key kind; structure families = 6 embedding contexts (top, between siblings, nested 1 and 2 levels, element of a repeated message, value of a map of messages) x FUT numbers (incl. the number that equals the next tag of the parent) x every shape (singular/repeated/unpacked x 17 kinds, map key kinds x value kinds) x sizes 0..3 / empty sub-messages; all 64 presence subsets of a 6-field message; JSON-name spellings; recursive chains; unknown fields of every wire type at every position and depth; x all 4 subsets of {Int642String, DisallowUnknownField} x {Do, DoInto with capacities 0,1,len/2,len}. A case is non-trivial if it is distinct by (schema, message, options) and the converter produced output that was parsed and compared. Later additions: histories of length 2, SetOptions twin, arena-backed DoInto, overwriting of the pooled buffers right after Do, two message types with one simple name. Round 9: high field numbers declared out of order."
 }
 func (check) Assumptions() []string {
 	return []string{
